@@ -68,7 +68,7 @@ def c12(tier):
     ck = Check("C12", tier)
     binary = build_harness()
     rnd = random.Random(seed())
-    maxlen, nsample, longlen = (3, 3000, 9) if tier == "quick" else (3, 60000, 14)
+    maxlen, nsample, longlen = (3, 3000, 9) if tier == "quick" else (4, 60000, 14)
     lex = []
     for alpha, ml, ns_, ll in (("full", maxlen, nsample, longlen), ("comment", 7 if tier == "quick" else 8, 500, 14), ("string", 5 if tier == "quick" else 6, 500, 12)):
         cfg = write_cfg(['Alpha = "%s"' % alpha, "MaxLen = %d" % ml, "NSample = %d" % ns_, "LongLen = %d" % ll], invariants=["LexerTotal"])
@@ -157,14 +157,14 @@ def c12(tier):
 def c10(tier):
     ck = Check("C10", tier)
     binary = build_harness()
-    depth, nsample, nvar = (2, 700, 2) if tier == "quick" else (2, 0, 3)
+    depth, nsample, nvar = (2, 700, 2) if tier == "quick" else (2, 0, 8)
     cfg = write_cfg(["Depth = %d" % depth, "NSample = %d" % nsample, "NVariants = %d" % nvar])
     r = tlc("OplGrammar", "g.cfg", files={"g.cfg": cfg}, extra=["-seed", str(seed())])
     ck.add_tlc(r)
     progs = r.lines
     if tier == "thorough":
         # deeper nesting around the documented limit (10): chains of ! and of parentheses are printed by the same module at depth 3 in a sample
-        cfg = write_cfg(["Depth = 3", "NSample = 6000", "NVariants = 1"])
+        cfg = write_cfg(["Depth = 3", "NSample = 20000", "NVariants = 1"])
         r3 = tlc("OplGrammar", "g3.cfg", files={"g3.cfg": cfg}, extra=["-seed", str(seed() + 1)], heap="8g")
         ck.add_tlc(r3)
         progs = progs + r3.lines
